@@ -74,7 +74,13 @@ def q_at(ex, args, kwargs):
     saved = ex.spec_mode
     ex.spec_mode += 1
     try:
-        return ex.subscript(seq, i)
+        try:
+            return ex.subscript(seq, i)
+        except Exception as e:
+            # a concrete sequence indexed outside its bounds: `at` is total (unspecified value)
+            if type(e).__name__ == 'PyExc' and isinstance(seq, (bytes, tuple)):
+                return ex.fresh_sym('int', 'at')
+            raise
     finally:
         ex.spec_mode = saved
 
@@ -168,7 +174,15 @@ def q_ufb(ex, args, kwargs):
     return mk_bytes(units[0] if n == 1 else z3.Concat(*units))
 
 
+def q_same(ex, args, kwargs):
+    import ast
+
+    a, b = args
+    return ex.compare_op(ast.Is(), a, b)
+
+
 SPEC_FORMS = {
+    C.same: q_same,
     C.ufb: q_ufb,
     C.uf: q_uf,
     C.mhas: q_mhas,
